@@ -214,6 +214,15 @@ def gen(rng, tier):
     ncli, ntext = (28, 400) if tier == 'quick' else (240, 4000)
     g = Gen(rng, special=0.3)
     cli = [gen_cli_case(rng, g) for _ in range(ncli)]
+    # SIZE CLASS of texts: sources of 8-17 kB made of hundreds of small clauses (generator shared with C10), alone or after a small source
+    from props import c10 as _c10
+    for i in range(1 if tier == 'quick' else 6):
+        big = _c10.g_large(rng, ['facts', 'clauses', 'facts+'][i % 3], rng.choice([8200, 8700] if tier == 'quick' else [8200, 10000, 16400]))[0]
+        files, sources = [['table.pl', big]], ['table.pl']
+        if i % 2:
+            files.insert(0, ['a.pl', _small(g.program)]); sources.insert(0, 'a.pl')
+        cli.insert((i * 7 + 3) % len(cli), {'kind': 'cli', 'files': files, 'sources': sources, 'stdin': ['text', ''],
+                                             'outfile': 'out.py', 'modesalt': i % 2, 'combos': 'all'})
     if tier == 'quick':
         # all 16 flag combinations over every two consecutive cases (8 + the plain run per case)
         for i, c in enumerate(cli):
@@ -270,6 +279,12 @@ def builtin_corpus():
     cli([['a.pl', good], ['big.pl', 'p :- ' + ', '.join(['q'] * 25) + '.\n']], ['a.pl', 'big.pl'])    # too large: CompilerError at 0:0
     cli([['a.pl', good], ['num.pl', 'p(' + '1' * 4400 + ').\n']], ['a.pl', 'num.pl', 'a.pl'])      # ValueError: traceback
     cli([['a.pl', good]], ['a.pl', '-'], stdin=nl, outfile='-')                                       # -o - is stdout
+    # predicates none of whose clauses generates code (one, two, three clauses; with arguments), next to one that does
+    cli([['a.pl', 'k(a).\nnone :- fail.\nnone :- true, fail, k(X).\nnone :- fail, !.\ntwo(X, Y) :- fail, k(X).\ntwo(X, Y) :- fail.\none :- fail.\n']], ['a.pl'])
+    cli([['a.pl', 'none :- fail.\nk(a) :- fail.\nnone :- ( fail, k ).\nk(b) :- \\+ true.\n']], ['-', 'a.pl'], stdin='z :- fail.\nz :- fail.\n')
+    # one text cut into two sources: inside a quoted atom, and before the full stop
+    cli([['a.pl', "k(1).\np('ab"], ['b.pl', "cd').\n"]], ['a.pl', 'b.pl'])
+    cli([['a.pl', 'k(1) :- k(2)']], ['a.pl', '-'], stdin=', k(3).\nk(4).\n')
     return L
 
 # ------------------------------------------------------------------ implementation side
